@@ -3,6 +3,7 @@ import StepModel.P21SafeLoopLemmas
 import StepModel.P21SafeTermination
 import StepModel.P21SafeSteps
 import StepModel.P21SafeSteps2
+import StepModel.P21SafeOwnLemmas
 import StepModel.P21SafeDataLemmas
 import StepModel.Generated.C05Buffers
 /-! # C05 — reading and writing Part 21 is memory-safe and terminates (the part Lean can carry)
@@ -553,6 +554,33 @@ theorem C05_steps_exportList (s : IS) (c : Byte) (steps : Nat) :
     (s.rest.length + 2) s c steps (by omega)
   have := pot_le (R := C05.readCommentIters) s
   exact ⟨r, a, by omega⟩
+
+/-! ## who owns the node a reader hands to an aggregate (`ReadValue` of STEPaggregate / EntityAggregate / SelectAggregate)
+
+Ownership-transfer invariant over the element loop: a node is the loop's own (`item`) until `AddNode( item )` hands it to
+the list; from then on only the list may free it.  The `delete item;` statements (position and guard) are regenerated. -/
+
+/-- for the regenerated `delete` sites of all three `ReadValue` functions: whatever the number of elements, the mode
+(assigning / validating) and the way out (closing parenthesis, missing one, giving up on a bad delimiter), no node is
+freed while the list holds it and none is freed twice -/
+theorem C05_aggr_ownership (assign scratch : Bool) (k : Nat) (exit : AggrExit) :
+    (aggrRun C05.aggrDeletes assign scratch k exit).isOk = true ∧
+    (aggrRun C05.entityAggrDeletes assign scratch k exit).isOk = true ∧
+    (aggrRun C05.selectAggrDeletes assign scratch k exit).isOk = true :=
+  ⟨aggrRun_safe _ (by decide) _ _ _ _, aggrRun_safe _ (by decide) _ _ _ _, aggrRun_safe _ (by decide) _ _ _ _⟩
+
+/-- seeded regression C05-d1 (an unguarded `delete item` on the give-up path, after `AddNode( item )`): one element,
+bad delimiter — the element node is freed while the list holds it (use after free when the list is destroyed) -/
+theorem C05_aggr_ownership_witness :
+    aggrRun ⟨some .always, some .ifNotAssign, none, none⟩ true true 1 .giveUp = .danglingInList 0 := by decide
+
+/-- … and a second `delete` on one way out frees the scratch node twice -/
+theorem C05_aggr_doubleFree_witness :
+    aggrRun ⟨none, some .ifNotAssign, some .ifNotAssign, none⟩ false true 3 .missingClose = .doubleFree 0 := by decide
+
+/-- not a safety matter but visible in the model: a `ReadValue` without any `delete item` (as `STEPaggregate::ReadValue` and
+`SelectAggregate::ReadValue` stand) never frees the scratch node of a validation-only read (API path `AggrValidLevel`; not reachable from file bytes) -/
+theorem C05_aggr_scratch_leak_witness : aggrRun ⟨none, none, none, none⟩ false true 2 .closed = .ok 1 := by decide
 
 /-- regenerated facts the file-level budget relies on (not modelled proofs): the comment limit and the error cut-off
 are finite constants of the size the constant `c₂` of the linear bound absorbs, and `PushPastImbedAggr` does not
